@@ -104,7 +104,8 @@ ht2mjd(const unsigned int *cal, size_t nm, struct ymd_s h)
 {
 	const unsigned int i = (h.y - 1U) * 12U + (h.m - 1U) - SM(cal);
 
-	if (UNLIKELY(i >= nm)) {
+	if (UNLIKELY(i >= nm - 1U)) {
+		/* the last entry is where the table ends, not a month */
 		return 0U;
 	}
 	return MT(cal)[i] + (h.d - 1U);
@@ -269,6 +270,11 @@ __wday_ht(
 	unsigned int y, unsigned int m, unsigned int d)
 {
 	const mjd_t j = ht2mjd(cal, nm, (struct ymd_s){y, m, d});
+
+	if (UNLIKELY(!j)) {
+		/* not a date of this table */
+		return MIR;
+	}
 	return (echs_wday_t)(((j + 1U) % 7U) + 1U);
 }
 
